@@ -513,6 +513,7 @@ pub fn run_case(line: &str) -> (String, Vec<String>) {
         let o = run_parser(mk(ev.clone()), *chunk).text(false);
         if o != base_text {
             fails.push(format!("C01:result depends on the read schedule: one-shot={} {}={}", base_text, name, o));
+            fails.extend(crate::eng_cnf::variant_oracles(&delivered, fault, name, &o, c.expect.as_ref(), c.tok, true));
             break;
         }
     }
